@@ -105,6 +105,18 @@ def run(ctx):
     ctx.mc('MC_Cond', workers=4)
     tasks = []
     n = 1200 if q else 20000
+    # every encoding class known from the repository's tests (+ class-preserving variants) under failing conditions
+    cw = S.class_word_list(ctx.seed, 6 if q else 40)
+    arm_cw = [w for th, w in cw if not th and w >> 28 != 15]
+    t16_cw = [w for th, w in cw if th and not w >> 16]
+    t32_cw = [w for th, w in cw if th and w >> 16]
+    for i in range(2):
+        tasks.append((neg_arm, dict(name='neg-armcls-%d' % i, seed=ctx.seed + 300 + i, words=arm_cw[i::2], pairs=FAILING[i::2],
+                                    modes='all', cfg={'arch_version': 7} if i else {})))
+        tasks.append((neg_thumb, dict(name='neg-t32cls-%d' % i, seed=ctx.seed + 310 + i, words=t32_cw[i::2] + t16_cw[i::2],
+                                      pairs=FAILING[i::2], modes='all', cfg={'arch_version': 7} if i else {})))
+    tasks.append((pos_pairs, dict(name='pos-cls', seed=ctx.seed + 320, words=[(th, w) for th, w in cw[::2]], pairs=PASSING,
+                                  modes='all')))
     for i in range(6):
         ws = [w for th, w in S.random_words(random.Random(ctx.seed + i), 3 * n) if not th][:n]
         tasks.append((neg_arm, dict(name='neg-arm-%d' % i, seed=ctx.seed + i, words=ws, pairs=FAILING, modes='all',
@@ -131,7 +143,8 @@ def run(ctx):
     ctx.extra['failing_cond_flag_pairs_exercised'] = len(pairs_seen)
     ctx.extra['failing_cond_flag_pairs_total'] = len(FAILING)
     ctx.extra['positive_pairs_compared'] = sum(1 for g, e, v in res if v['path'] == 'pair:cond-pass')
-    ctx.extra['rule'] = ('negative path: ARM words with every failing (cond, NZCV) pair, every 16-bit Thumb word '
+    ctx.extra['encoding_class_words'] = len(cw)
+    ctx.extra['rule'] = ('negative path: every encoding class word harvested from the repository tests (+ class-preserving variants),  ARM words with every failing (cond, NZCV) pair, every 16-bit Thumb word '
                          '(quick: every 4th) and random 32-bit Thumb words inside an IT block whose condition fails '
                          '-> post must be exactly PC += len, IT advanced (or UNDEFINED/not-implemented); positive '
                          'path: same word under a passing condition and under AL from the same state must have the '
